@@ -32,7 +32,7 @@ PROPS = {
     ),
     "C04": dict(
         title="Interrupted operations resume to the same result",
-        lean=["LP.Props.C04loop"],
+        lean=["LP.Props.C04loop", "LP.Props.C08"],
         profiles=[("chunks", ALL_VARIANTS), ("life", ALL_VARIANTS)],
         R={"ret": {"filter", "select", "distribute", "selectNft", "secondary"},
            "st": {"filter", "select", "distribute", "selectNft", "secondary"},
@@ -49,7 +49,7 @@ PROPS = {
     ),
     "C06": dict(
         title="Lifecycle gating and monotonicity",
-        lean=["LP.Props.C06gates"],
+        lean=["LP.Props.C06gates", "LP.Props.C06stage"],
         profiles=[("timeline", ALL_VARIANTS), ("life", ALL_VARIANTS)],
         R={"st": ANY},
         D={"flags", "cfg"},
